@@ -120,6 +120,7 @@ incremental = false
     progs.write_if_changed(os.path.join(FP, '.cargo', 'config.toml'), '[net]\noffline = true\n')
     prelude = '''#![allow(dead_code, unused_imports)]
 pub use core::marker::PhantomData;
+pub use std::borrow::Cow;
 pub use scale_info::{TypeInfo, meta_type, MetaType};
 pub use ::scale_info as si_renamed;
 pub trait Tr { type A; }
